@@ -259,6 +259,14 @@ pub fn check_point<H: HueOps>(c: &mut Collector, x: H::T, fl: Flags, l: &mut Loc
     let cg_u = circ_diff(p64, x64).abs();
     let worst = ex_s.max(ex_u).max(cg_s).max(cg_u);
     let bound = tol * GUARD;
+    // congruence of each form is held to the rounding error of the stored angle plus that of the
+    // *result's own magnitude* (any implementation must round the result to the float grid there): the
+    // unsigned form of a small negative angle lives next to 360, but the signed form of an angle that is
+    // already in (-180, 180] can — and on the unchanged tree does — come back exactly
+    let bound_s = (ulp + ulp_of(s)) * GUARD;
+    if !(cg_s <= bound_s) && cg_s <= bound {
+        vp!(H, c, l, "normal-form-congruent", "into_degrees", class_of(x), x, cg_s, json!({"value": fj(s64), "distance_mod_360": fj(cg_s)}), json!({"congruent_to_input_within": bound_s, "note": "rounding error of the stored angle + of the result"}));
+    }
     if !(worst <= bound) || s64.is_nan() || p64.is_nan() {
         if !(ex_s <= bound) {
             vp!(H, c, l, "normal-form-range", "into_degrees", class_of(x), x, ex_s, json!({"value": fj(s64), "excess": fj(ex_s)}), json!({"range": "[-180, 180]", "tol": tol}));
